@@ -48,7 +48,7 @@ type scenario struct {
 	Kind     string   `json:"kind"` // "seq" (compared with the model) | "par" (parallel invocations, oracle + final state)
 	SysEmail bool     `json:"sys_email"`
 	Events   []string `json:"events"`
-	Par      int      `json:"par,omitempty"` // number of simultaneous invocations at the end (kind par)
+	Par      int      `json:"par,omitempty"`     // number of simultaneous invocations at the end (kind par)
 	Wrapper  bool     `json:"wrapper,omitempty"` // undisturbed runs go through bin/newpolicy -> bin/sudo-newpolicy
 }
 
@@ -95,10 +95,10 @@ trap 'if [ "$BASH_SUBSHELL" = 0 ]; then __vh_n=$((__vh_n+1)); echo "$__vh_n:$LIN
 `
 
 const stubNetspoc = `#!/bin/sh
-# stub compiler: netspoc SRC CODE -- succeeds iff SRC has no file BAD
+# stub compiler: netspoc SRC CODE -- succeeds iff SRC has no file BAD; the stamp records what was compiled
 mkdir -p "$2"
 if [ -e "$1/BAD" ]; then echo "Error: BAD"; echo Aborted; exit 1; fi
-echo compiled > "$2/COMPILED"
+cat "$1/topology" > "$2/COMPILED"
 exit 0
 `
 
@@ -133,9 +133,11 @@ func setupTools(ctx *Ctx) (*tools, error) {
 }
 
 type sandbox struct {
-	t   *tools
-	dir string
-	seq int
+	t        *tools
+	dir      string
+	seq      int
+	cache    map[string]commitInfo
+	logCache map[string]string
 }
 
 func (sb *sandbox) env(extra ...string) []string {
@@ -156,7 +158,74 @@ func gitIn(dir string, env []string, args ...string) (string, error) {
 	return strings.TrimSpace(string(out)), err
 }
 
+var (
+	tmplMu   sync.Mutex
+	tmplDone = map[bool]string{}
+)
+
+// template: a sandbox built once per harness run (and per kind of system user); scenarios start
+// from a copy of it with the embedded paths rewritten.
+func template(t *tools, sysEmail bool) (string, error) {
+	tmplMu.Lock()
+	defer tmplMu.Unlock()
+	if d, ok := tmplDone[sysEmail]; ok {
+		return d, nil
+	}
+	name := "template0"
+	if sysEmail {
+		name = "template1"
+	}
+	sb, err := buildSandbox(t, name, sysEmail)
+	if err != nil {
+		return "", err
+	}
+	tmplDone[sysEmail] = sb.dir
+	return sb.dir, nil
+}
+
+func copyTree(src, dst string) error {
+	return filepath.Walk(src, func(path string, info os.FileInfo, err error) error {
+		if err != nil {
+			return err
+		}
+		rel, _ := filepath.Rel(src, path)
+		target := filepath.Join(dst, rel)
+		switch {
+		case info.IsDir():
+			return os.MkdirAll(target, 0755)
+		case info.Mode()&os.ModeSymlink != 0:
+			l, _ := os.Readlink(path)
+			return os.Symlink(l, target)
+		default:
+			data, err := os.ReadFile(path)
+			if err != nil {
+				return err
+			}
+			return os.WriteFile(target, data, info.Mode().Perm())
+		}
+	})
+}
+
 func newSandbox(t *tools, name string, sysEmail bool) (*sandbox, error) {
+	tdir, err := template(t, sysEmail)
+	if err != nil {
+		return &sandbox{t: t, dir: filepath.Join(t.root, name)}, err
+	}
+	sb := &sandbox{t: t, dir: filepath.Join(t.root, name)}
+	if err := copyTree(tdir, sb.dir); err != nil {
+		return sb, err
+	}
+	for _, f := range []string{filepath.Join("home", ".netspoc-approve"), filepath.Join("work", ".git", "config")} {
+		data, err := os.ReadFile(filepath.Join(sb.dir, f))
+		if err != nil {
+			return sb, err
+		}
+		os.WriteFile(filepath.Join(sb.dir, f), bytes.ReplaceAll(data, []byte(tdir), []byte(sb.dir)), 0644)
+	}
+	return sb, nil
+}
+
+func buildSandbox(t *tools, name string, sysEmail bool) (*sandbox, error) {
 	sb := &sandbox{t: t, dir: filepath.Join(t.root, name)}
 	for _, d := range []string{"home", "policies"} {
 		os.MkdirAll(filepath.Join(sb.dir, d), 0755)
@@ -287,11 +356,24 @@ func startScript(t *tools, sbDir string, env []string, tag string, plan []planIt
 	return cmd, &errb, cmd.Start()
 }
 
+// settle waits until no process of the script's process group is left: a script killed inside a
+// pipeline leaves the already forked elements behind; they inherit fd 9 and with it the flock.
+func settle(pgid int) {
+	for i := 0; i < 400; i++ {
+		if err := syscall.Kill(-pgid, 0); err != nil {
+			return
+		}
+		time.Sleep(5 * time.Millisecond)
+	}
+	syscall.Kill(-pgid, syscall.SIGKILL)
+}
+
 func waitScript(cmd *exec.Cmd) string {
 	done := make(chan error, 1)
 	go func() { done <- cmd.Wait() }()
 	select {
 	case err := <-done:
+		settle(cmd.Process.Pid)
 		if err == nil {
 			return "0"
 		}
@@ -398,6 +480,7 @@ type dirObs struct {
 	Nested   bool
 	SrcGood  bool // no file BAD in the tree of HEAD
 	HasStamp bool
+	StampOK  bool // the compile stamp was made from the `topology` file of HEAD's tree
 }
 
 type obs struct {
@@ -444,22 +527,73 @@ func (sb *sandbox) hasBAD(dir, rev string) bool {
 	return err == nil
 }
 
+type commitInfo struct {
+	pol string
+	bad bool
+}
+
+// infoOf: POLICY number and presence of BAD in the tree of a commit (immutable, cached per sandbox).
+func (sb *sandbox) infoOf(dir, hash string) commitInfo {
+	if sb.cache == nil {
+		sb.cache = map[string]commitInfo{}
+	}
+	if ci, ok := sb.cache[hash]; ok {
+		return ci
+	}
+	ci := commitInfo{pol: sb.polOf(dir, hash), bad: sb.hasBAD(dir, hash)}
+	sb.cache[hash] = ci
+	return ci
+}
+
+// headFile reads HEAD of a non-bare clone without starting git.
+func headFile(src string) string {
+	data, err := os.ReadFile(filepath.Join(src, ".git", "HEAD"))
+	if err != nil {
+		return ""
+	}
+	h := strings.TrimSpace(string(data))
+	if ref, ok := strings.CutPrefix(h, "ref: "); ok {
+		if data, err := os.ReadFile(filepath.Join(src, ".git", ref)); err == nil {
+			return strings.TrimSpace(string(data))
+		}
+		if data, err := os.ReadFile(filepath.Join(src, ".git", "packed-refs")); err == nil {
+			for _, l := range strings.Split(string(data), "\n") {
+				if f := strings.Fields(l); len(f) == 2 && f[1] == ref {
+					return f[0]
+				}
+			}
+		}
+		return ""
+	}
+	return h
+}
+
 func (sb *sandbox) observeDir(path string, remote string) (d dirObs, hasSrc bool) {
 	src := filepath.Join(path, "src")
 	if _, err := os.Stat(filepath.Join(src, ".git")); err == nil {
-		if h := sb.headOf(src); h != "" {
+		h := headFile(src)
+		if len(h) != 40 {
+			h = sb.headOf(src)
+		}
+		if h != "" {
 			hasSrc = true
-			d.HeadPol = sb.polOf(src, "HEAD")
+			ci := sb.infoOf(src, h)
+			d.HeadPol = ci.pol
 			d.HeadIsR = h == remote
-			d.SrcGood = !sb.hasBAD(src, "HEAD")
+			d.SrcGood = !ci.bad
 		}
 	}
 	if !hasSrc {
 		d.HeadPol = "-"
 	}
-	_, err := os.Stat(filepath.Join(path, "code", "COMPILED"))
+	stamp, err := os.ReadFile(filepath.Join(path, "code", "COMPILED"))
 	d.HasStamp = err == nil
 	d.Built = d.HasStamp
+	if d.HasStamp && hasSrc {
+		if top, err := gitIn(src, sb.env(), "show", "HEAD:topology"); err == nil {
+			d.StampOK = strings.TrimSpace(string(stamp)) == top
+		}
+	}
 	_, err = os.Stat(filepath.Join(path, "next"))
 	d.Nested = err == nil
 	return
@@ -469,10 +603,22 @@ func (sb *sandbox) observe() *obs {
 	o := &obs{}
 	bare := filepath.Join(sb.dir, "netspoc.git")
 	env := sb.env()
-	o.Remote.Hash, _ = gitIn(bare, env, "rev-parse", "master")
-	o.Remote.Good = !sb.hasBAD(bare, "master")
-	o.Remote.Pol = sb.polOf(bare, "master")
-	info, _ := gitIn(bare, env, "log", "-n", "1", "--format=E=%ae%nP=%P%nS=%s", "master")
+	if data, err := os.ReadFile(filepath.Join(bare, "refs", "heads", "master")); err == nil && len(strings.TrimSpace(string(data))) == 40 {
+		o.Remote.Hash = strings.TrimSpace(string(data))
+	} else {
+		o.Remote.Hash, _ = gitIn(bare, env, "rev-parse", "master")
+	}
+	rci := sb.infoOf(bare, o.Remote.Hash)
+	o.Remote.Good = !rci.bad
+	o.Remote.Pol = rci.pol
+	if sb.logCache == nil {
+		sb.logCache = map[string]string{}
+	}
+	info, ok := sb.logCache[o.Remote.Hash]
+	if !ok {
+		info, _ = gitIn(bare, env, "log", "-n", "1", "--format=E=%ae%nP=%P%nS=%s", o.Remote.Hash)
+		sb.logCache[o.Remote.Hash] = info
+	}
 	parts := strings.SplitN(info, "\n", 3)
 	for len(parts) < 3 {
 		parts = append(parts, "")
@@ -553,6 +699,9 @@ func (d *dirObs) SrcGoodOrUnknown() bool { return true }
 type oracleState struct {
 	promoted []int // every value `current` took, in order
 	lastCur  string
+	dirs     map[int]bool // policy directories seen so far
+	nested   map[int]bool // … with a later `mv next pN` inside
+	maxDir   int
 }
 
 type finding struct {
@@ -623,11 +772,35 @@ func (os_ *oracleState) check(o *obs, before *obs, ev string, r *runInfo, staleB
 		}
 		os_.lastCur = o.Cur
 	}
+	// 3b. every new policy directory gets a number larger than every number used before;
+	// a `next` that appears INSIDE an existing pN means `mv next pN` reused the number N
+	if os_.dirs == nil {
+		os_.dirs, os_.nested = map[int]bool{}, map[int]bool{}
+	}
+	for _, d := range o.Dirs {
+		if !os_.dirs[d.N] {
+			if d.N <= os_.maxDir {
+				fs = append(fs, finding{"policy_number_not_increasing", fmt.Sprintf("new directory p%d after p%d existed", d.N, os_.maxDir)})
+			}
+			os_.dirs[d.N] = true
+			if d.N > os_.maxDir {
+				os_.maxDir = d.N
+			}
+		}
+		if d.Nested && !os_.nested[d.N] {
+			os_.nested[d.N] = true
+			pred := "policy_number_reused_other"
+			if raceLost {
+				pred = "policy_number_reused_after_failed_push_and_lost_link"
+			}
+			fs = append(fs, finding{pred, fmt.Sprintf("mv next p%d landed inside the existing directory p%d: the number was used twice", d.N, d.N)})
+		}
+	}
 	// 5. promotion after an undisturbed run that ends with exit 0
 	if r != nil && strings.HasPrefix(ev, "r:") && ev == "r:" && r.Exit == "0" && before.Remote.Good {
 		newest := false
 		for _, d := range o.Dirs {
-			if strconv.Itoa(d.N) == o.Cur && d.HasStamp && d.SrcGood && d.HeadIsR {
+			if strconv.Itoa(d.N) == o.Cur && d.HasStamp && d.SrcGood && d.HeadIsR && d.StampOK {
 				newest = true
 			}
 		}
@@ -901,12 +1074,12 @@ func genScenario(rng *RNG, maxLen int) scenario {
 }
 
 var corpus = []scenario{
-	// F-C19: killed between push and promotion (first run: 46 = git push is the 46th command, 47 = git reset, 49 = mv)
-	{Kind: "seq", Events: []string{"r:", "c:g:-:1", "r:53=K", "r:", "r:"}},
+	// F-C19: killed between push and promotion (second run: 47 = git push, 48 = git reset, 50 = mv, 51 = rm, 52 = ln)
+	{Kind: "seq", Events: []string{"r:", "c:g:-:1", "r:49=K", "r:", "r:"}},
 	// killed during the compile
 	{Kind: "seq", Events: []string{"r:", "c:g:-:1", "r:38=K", "r:", "r:", "c:g:-:1", "r:"}},
 	// race commit right before git push, then link lost, then number reused
-	{Kind: "seq", Events: []string{"r:", "c:g:-:1", "r:51=cg,56=K", "r:", "r:"}},
+	{Kind: "seq", Events: []string{"r:", "c:g:-:1", "r:47=cg,52=K", "r:", "r:"}},
 	// bad commit is reverted (system user without e-mail) / not reverted (with e-mail)
 	{Kind: "seq", Events: []string{"r:", "c:b:-:1", "r:", "c:b:-:1", "c:b:-:1", "r:", "r:", "c:g:-:1", "r:"}},
 	{Kind: "seq", SysEmail: true, Events: []string{"r:", "c:b:-:1", "r:", "r:", "c:g:-:1", "r:"}},
@@ -931,6 +1104,7 @@ func runC19(ctx *Ctx) *Result {
 		"non-trivial = at least one commit and one plan action that fired (or a parallel start); distinct by scenario text"
 	res.Assumptions = []string{
 		"kills happen between main-shell simple commands (SIGKILL from the DEBUG trap); a kill inside a running child is not exercised",
+		"after a kill the harness waits until the already forked elements of a pipeline have ended (they inherit fd 9 and keep the flock for a moment; a second invocation started in that moment would exit 1, which the model does not show)",
 		"git 2.39 defaults: pull without strategy refuses divergent branches; no pull.rebase configured for the system user",
 		"stub compiler: succeeds iff the source tree has no file BAD; mail, sudo are stubs",
 	}
@@ -985,7 +1159,10 @@ func runC19(ctx *Ctx) *Result {
 			tr = tr[:strings.Index(tr, " ")]
 			L := len(strings.Split(tr, "."))
 			for k := 1; k <= L; k++ {
-				evs := append(append([]string{}, b...), fmt.Sprintf("r:%d=K", k), "r:", "c:g:-:1", "r:")
+				evs := append(append([]string{}, b...), fmt.Sprintf("r:%d=K", k), "r:")
+				if ctx.Thorough() || k%3 == 0 {
+					evs = append(evs, "c:g:-:1", "r:") // … and the database recovers with the next commit
+				}
 				scs = append(scs, scenario{Kind: "seq", SysEmail: se, Events: evs})
 				if ctx.Thorough() {
 					evs2 := append(append([]string{}, b...), fmt.Sprintf("r:%d=n", k), "r:")
@@ -1005,10 +1182,6 @@ func runC19(ctx *Ctx) *Result {
 			}
 		}
 	}
-	nRandom := ctx.N(140, 2500)
-	for i := 0; i < nRandom; i++ {
-		scs = append(scs, genScenario(ctx.Rng.Fork(), ctx.N(6, 9)))
-	}
 	nPar := ctx.N(12, 150)
 	for i := 0; i < nPar; i++ {
 		rng := ctx.Rng.Fork()
@@ -1018,6 +1191,10 @@ func runC19(ctx *Ctx) *Result {
 		}
 		sc.Events = append(sc.Events, genCommit(rng))
 		scs = append(scs, sc)
+	}
+	nRandom := ctx.N(120, 2500)
+	for i := 0; i < nRandom; i++ {
+		scs = append(scs, genScenario(ctx.Rng.Fork(), ctx.N(6, 9)))
 	}
 
 	// run in parallel workers, record in order
@@ -1034,7 +1211,7 @@ func runC19(ctx *Ctx) *Result {
 			}
 		}()
 	}
-	deadline := time.Now().Add(time.Duration(ctx.N(60, 900)) * time.Second)
+	deadline := time.Now().Add(time.Duration(ctx.N(45, 900)) * time.Second)
 	skipped := 0
 	for i := range scs {
 		if time.Now().After(deadline) {
